@@ -43,6 +43,7 @@ type (
 		Args []Expr
 	}
 	EOld    struct{ X Expr }
+	EPrev   struct{ X Expr } // value at the head of the current loop iteration (back-edge hints)
 	EForall struct {
 		Vars     []QVar
 		Body     Expr
@@ -88,7 +89,8 @@ func (e ECall) String() string {
 	}
 	return e.Fn + "(" + strings.Join(a, ", ") + ")"
 }
-func (e EOld) String() string { return "old(" + e.X.String() + ")" }
+func (e EOld) String() string  { return "old(" + e.X.String() + ")" }
+func (e EPrev) String() string { return "prev(" + e.X.String() + ")" }
 func (e EForall) String() string {
 	var v []string
 	for _, q := range e.Vars {
@@ -352,6 +354,11 @@ func (ps *specParser) parsePrimary() Expr {
 			x := ps.parseExpr(0)
 			ps.expectOp(")")
 			return EOld{x}
+		case "prev":
+			ps.expectOp("(")
+			x := ps.parseExpr(0)
+			ps.expectOp(")")
+			return EPrev{x}
 		}
 		name := t.s
 		// qualified spec names a.b are handled as selection; calls:
